@@ -13,9 +13,7 @@
 (*   of the right literal kind).                                           *)
 (* Law 2 (deviation switches that only DROP checks never add a clause):    *)
 (*   Violations under such a switch is a subset of the ideal Violations.   *)
-(* Law 3 (the two overlap switches are exact opposites): they never both   *)
-(*   change the outcome of the same document.                              *)
-(* Law 4 (the evaluation shortcut of FieldsInSetCanMerge is sound): if no  *)
+(* Law 3 (the evaluation shortcut of FieldsInSetCanMerge is sound): if no  *)
 (*   response key is repeated, neither the specification's nor the         *)
 (*   implementation's merge check reports anything.                        *)
 (***************************************************************************)
@@ -72,14 +70,11 @@ Law1 == LET C == Ctx0(d, {}) IN
         ~SomeKeyRepeated(C) => (Valid(C) <=> Constructive(C, d.ops[1].sels, TS.query))
 
 \* ---- Law 2 ---------------------------------------------------------------
-DroppingDevs == {"DevInputValueNotForwarded", "DevInputObjectNonObjectAccepted", "DevEnumAcceptsString", "DevUnsuppliedVarSkipsArgCheck",
+DroppingDevs == {"DevInputValueNotForwarded", "DevEnumAcceptsString", "DevUnsuppliedVarSkipsArgCheck",
                  "DevVarDefDirectivesNotVisited", "DevOverlapMissesConflicts"}
 Law2 == \A dv \in DroppingDevs : Violations(Ctx0(d, {dv})) \subseteq Violations(Ctx0(d, {}))
 \* ---- Law 3 ---------------------------------------------------------------
-Law3 == ~(Violations(Ctx0(d, {"DevOverlapMissesConflicts"})) # Violations(Ctx0(d, {}))
-          /\ Violations(Ctx0(d, {"DevOverlapFalseConflict"})) # Violations(Ctx0(d, {})))
-\* ---- Law 4 ---------------------------------------------------------------
-Law4 == LET C == Ctx0(d, {}) IN ~SomeKeyRepeated(C) => FieldsInSetCanMergeIdeal(C) = {} /\ FieldsInSetCanMergeImpl(C) = {}
+Law3 == LET C == Ctx0(d, {}) IN ~SomeKeyRepeated(C) => FieldsInSetCanMergeIdeal(C) = {} /\ FieldsInSetCanMergeImpl(C) = {}
 \* the family is not vacuous: it contains valid and invalid documents and documents with repeated keys
 ASSUME \E x \in Docs : Valid(Ctx0(x, {}))
 ASSUME \E x \in Docs : ~Valid(Ctx0(x, {}))
